@@ -4,7 +4,9 @@ from __future__ import annotations
 
 import itertools
 
-from ..common import Check
+import json
+
+from ..common import CORPUS, Check
 from ..lockstep import Case, lockstep
 from ..simrun import CompSim
 
@@ -194,16 +196,31 @@ def gen_cases(ctx: Check):
         if d["w"] > 1:
             malformed.append(Case(cfg, gen_ops(rng, d, cyc // 2, 0.8, 0.9, distinct=False, hot=True), d, "malformed"))
     if ctx.thorough:
-        # all histories of length <= 3 of a 2-row, 1-bit, 1r1w bank and a 2-chunk 1r1w bank
+        # all histories of length <= 3 of a 2-row, 1-bit, 1r1w bank; of a 2-chunk 1r1w bank all of length <= 2 and
+        # a sample of length 3
         for d in (_desc(2, 1, 1, None, 1, 1), _desc(2, 1, 2, 1, 1, 1)):
             rsp = [None, 0, 1]
             masks = [1] if d["gran"] is None else [1, 2, 3]
             wsp = [None] + [(a, v, k) for a in (0, 1) for v in range(1 << (d["g"] * d["n"])) for k in masks]
             alpha = [fmt_op([r], [w]) for r in rsp for w in wsp]
             for L in (1, 2, 3):
-                for seq in itertools.product(alpha, repeat=L):
-                    good.append(Case(_cfg(d), list(seq), d, "exhaustive"))
+                if len(alpha) ** L <= 6000:
+                    for seq in itertools.product(alpha, repeat=L):
+                        good.append(Case(_cfg(d), list(seq), d, "exhaustive"))
+                else:
+                    rr = ctx.rng(f"ex{L}")
+                    for _ in range(20000):
+                        good.append(Case(_cfg(d), [rr.choice(alpha) for _ in range(L)], d, "exhaustive-sample"))
     return good, malformed
+
+
+def _corpus() -> list[Case]:
+    """directed cases and minimised past failures (mutation runs), run first on every invocation"""
+    out = []
+    for f in sorted((CORPUS / "C22").glob("*.json")):
+        body = json.loads(f.read_text())
+        out.append(Case(body["cfg"], list(body["ops"]), body["desc"], "corpus"))
+    return out
 
 
 def more_cases(case: Case, rng):
@@ -232,6 +249,7 @@ def run(ctx: Check):
     )
     ctx.proof_stage()
     good, malformed = gen_cases(ctx)
+    good = _corpus() + good
     for c in good:
         ctx.count(f"ports_r{c.desc['r']}w{c.desc['w']}")
         ctx.count("granular" if c.desc["gran"] is not None else "whole_word")
